@@ -53,7 +53,7 @@ REQUIRED = {
  "C04": ["pick_minimal", "assign_next_in_policy", "descend_cases", "sticky_only_breaks_ties", "minimal_sound", "minimal_complete", "minimal_nonempty", "no_queued_while_parked", "tree_consistent", "qchildren_less_irrefl", "qchildren_less_trans", "assign_next_finds_queued", "schedule_finds_parked"],
  "C05": ["longest_prefix_pq_sound", "longest_prefix_pq_none", "exec_routes_longest_prefix", "exec_routes_longest_prefix_reachable", "reject_codes", "drained_gets_nothing", "undrain_eligible"],
  "C06": ["waiters_exact", "parked_on_registered", "armed_only_unwaited", "armed_when_unwaited", "enter_fires_all_overdue", "maybe_start_cleanup_arms", "retry_limit", "worker_timeout", "no_waiter_timeout", "worker_attended", "workerless_queue_armed", "gc_complete"],
- "C07": ["selector_linear", "selector_only_at_execute", "learner_linear", "no_learner_no_call", "learner_after_complete", "completed_has_no_learner", "retry_once_largest"],
+ "C07": ["selector_linear", "selector_only_at_execute", "learner_linear", "no_learner_no_call", "learner_after_complete", "completed_has_no_learner", "retry_once_largest", "background_bounded", "background_ops_not_cacheable", "background_learners_no_retry"],
 }
 
 
